@@ -708,3 +708,37 @@ Lemma block_same_xg_regression :
   = [Some "IC_Function_0_smoothness_convexity_block_0(Point_0, Point_1)"%string;
      Some "IC_Function_0_smoothness_convexity_block_0(Point_1, Point_0)"%string].
 Proof. vm_compute. reflexivity. Qed.
+
+(** * "stationary sample" is a property of the recorded data *)
+(** a sample is stationary when its gradient has the empty (pruned) decomposition, however it was recorded
+    ([stationary_point()], [add_point] with a zero gradient, [stationary_point()] of a composite).  The
+    list the implementation keeps is an input of the model; the correspondence harness checks on every case
+    that it IS the list of zero-gradient samples ([stat_consistent]). *)
+Definition zero_grad (s : sample) : bool := match prune (s_g s) with [] => true | _ => false end.
+Definition stat_consistent (st : fstate) : Prop := f_stat st = filter zero_grad (f_points st).
+
+Lemma stat_consistent_start plan st : stat_consistent st -> stat_consistent (start_state plan st).
+Proof.
+  intros H. destruct plan as [|it plan]; [exact H|]. destruct it; try exact H. cbn [start_state item_state].
+  destruct (f_stat st) as [|s0 l0] eqn:Es; [|exact H]. unfold stat_consistent in *. unfold auto_stationary. cbn.
+  rewrite filter_app, <- H, Es. reflexivity.
+Qed.
+
+Section StationaryData.
+  Context {E : ips}.
+  Variable rho : nat -> E.
+  Variable phi : nat -> R.
+
+  (** the "stationary samples x all samples" statements of ConvexQGFunction / RsiEbFunction, read on the data:
+      one condition for every recorded sample with zero gradient paired with every other recorded sample *)
+  Theorem stationary_pairs_complete st cname f sym :
+    stat_consistent st ->
+    (item_full rho phi st (Pairs LStationary LPoints cname f sym) <->
+     forall si sj, In si (f_points st) -> zero_grad si = true -> In sj (f_points st) -> s_uid si <> s_uid sj ->
+                   holds rho phi (inst st f si sj)).
+  Proof.
+    intros Hc. cbn [item_full get_list]. rewrite Hc. split.
+    - intros H si sj Hi Hz Hj Hu. apply H; [apply filter_In; split; assumption|exact Hj|exact Hu].
+    - intros H si sj Hi Hj Hu. apply filter_In in Hi as [Hi Hz]. apply H; assumption.
+  Qed.
+End StationaryData.
